@@ -382,6 +382,52 @@ SEARCH_SHAPES_QUICK = [(1, 2), (2, 1), (2, 3), (3, 2), (3, 1), (2, 2), (2, 0), (
 SEARCH_SHAPES_MORE = [(1, 1), (3, 3), (2, 4), (3, 4), (4, 3), (3, 0), (4, 1), (1, 4), (5, 2), (2, 5), (5, 3), (3, 5)]
 
 
+def sequence_check(spec, m, rng, calls):
+    """several calls on one model: (a) results handed out earlier must not change when the functions are called again (no
+    shared output buffer), also after the caller edits a returned array; (b) after the parameter values change, the same
+    point must give the right-hand side / Jacobian of the NEW parameters (no cache keyed on the state alone)"""
+    nS, nP = spec["nS"], spec["nP"]
+    out = []
+    for call in calls:
+        layout, rhs, jac = CALLS[call]
+        n = nS + nS * nP + (nS * nS if call == "iv" else 0)
+        z1 = np.round(np.concatenate([rng.uniform(0.5, 1.5, nS), rng.uniform(-1.0, 1.0, n - nS)]), 4)
+        z2 = np.round(np.concatenate([rng.uniform(0.5, 1.5, nS), rng.uniform(-1.0, 1.0, n - nS)]), 4)
+        try:
+            J1 = jac(m, z1, 0.0); r1 = rhs(m, z1, 0.0)
+            J1c, r1c = np.array(J1, dtype=float, copy=True), np.array(r1, dtype=float, copy=True)
+            J2 = jac(m, z2, 0.0); r2 = rhs(m, z2, 0.0)
+            if not (np.array_equal(np.asarray(J1, dtype=float), J1c) and np.array_equal(np.asarray(r1, dtype=float), r1c)):
+                out.append(("aliased-output-" + CLS[call], "%s: the array returned for one point changed when the function was "
+                            "called at another point (outputs share a buffer)" % call, dict(kind="sequence", call=call, spec=spec,
+                                                                                             z=z1.tolist(), z2=z2.tolist())))
+                continue
+            try:
+                np.asarray(J2)[...] = np.asarray(J2) + 1.0          # the caller owns what it was given
+            except Exception:       # noqa: B902
+                pass
+            J1b = np.asarray(jac(m, z1, 0.0), dtype=float)
+            if J1b.shape != J1c.shape or not np.allclose(J1b, J1c, rtol=0, atol=1e-12):
+                out.append(("aliased-output-" + CLS[call], "%s: editing a returned Jacobian changed what a later call returns "
+                            "(max difference %.3g)" % (call, float(np.abs(J1b - J1c).max()) if J1b.shape == J1c.shape else -1),
+                            dict(kind="sequence", call=call, spec=spec, z=z1.tolist(), z2=z2.tolist())))
+                continue
+        except Exception as e:      # noqa: B902
+            out.append(("sequence-raises-" + CLS[call], "%s raised %s: %s in a two-call sequence" % (call, type(e).__name__, e),
+                        dict(kind="sequence", call=call, spec=spec, z=z1.tolist(), z2=z2.tolist())))
+            continue
+        if nP:
+            th2 = [round(float(v) * 1.3 + 0.1, 4) for v in spec["theta"]]
+            spec2 = dict(spec, theta=th2)
+            m.parameters = [("p%d" % k, v) for k, v in enumerate(th2)]
+            cls, what, err = point_check(spec2, z1, call, m)
+            m.parameters = [("p%d" % k, v) for k, v in enumerate(spec["theta"])]
+            if cls:
+                out.append(("after-parameter-change/" + cls, "evaluated at a point, parameters changed, evaluated at the same point: "
+                            + what, dict(kind="sequence-params", call=call, spec=spec, theta2=th2, z=z1.tolist())))
+    return out
+
+
 def run_search(ck):
     rng = np.random.default_rng([ck.seed, 1313])
     specs = [dict(c) for c in CORPUS]
@@ -417,6 +463,9 @@ def run_search(ck):
                     ck.violation(cls, what, dict(kind="point", call=call, spec=spec, z=z.tolist()))
                 elif err is not None:
                     worst["jacobian"] = max(worst["jacobian"], err)
+        for cls, what, inp in sequence_check(spec, m, rng, calls):
+            ck.violation(cls, what, inp)
+        ck.case(dict(kind="sequence", nS=nS, nP=nP, eqs=spec["eqs"]), nontrivial=True)
         # integrated sensitivities: every lambda-back-end model in thorough, the first ones in quick
         if spec.get("backend") == "cython" or (ck.quick and n_int >= 8):
             continue
@@ -488,6 +537,9 @@ def replay(ck, data):
     spec = inp["spec"]
     if inp["kind"] == "point":
         cls, what, _ = point_check(spec, np.array(inp["z"], dtype=float), inp["call"])
+    elif inp["kind"].startswith("sequence"):
+        r = sequence_check(spec, build(spec), np.random.default_rng(0), [inp["call"]])
+        return r[0][1] if r else None
     else:
         cls, what, _ = integ_check(spec, inp["mode"])
     return what if cls else None
